@@ -399,6 +399,17 @@ impl PeerDHTRecord {
 
     /// Verify the record signature
     pub fn verify_signature(&self) -> Result<()> {
+        // The user id must be the one derived from the embedded public key;
+        // otherwise anyone could sign a record carrying somebody else's id.
+        if UserId::from_public_key(&self.public_key) != self.user_id {
+            return Err(P2PError::Security(
+                SecurityError::SignatureVerificationFailed(
+                    "User id does not match embedded public key"
+                        .to_string()
+                        .into(),
+                ),
+            ));
+        }
         let message = self.create_signable_message()?;
         let ok = crate::quantum_crypto::ml_dsa_verify(&self.public_key, &message, &self.signature)
             .map_err(|e| {
